@@ -328,6 +328,7 @@ class Heap:
         self.regs = regs
         self.own = {}        # (cls qualname, reg) -> table dict  (key -> value)
         self.events = []     # (module, lineno, cls, reg, key, value, landed_in_cls)
+        self.dynamic = []    # (module, for-statement, [(class or None, writer name)]) registrations computed at import time
         for cls, name, v, ok in class_body_declarations(repo, regs):
             self.own[(cls.qualname, name)] = {}
 
@@ -464,7 +465,15 @@ def fold_registrations(repo, regs, module_order=None):
                 isinstance(c.func, ast.Attribute) and c.func.attr in writers_by_name for c in A.calls_in(st.body)):
             seq = A.const_value(st.iter)
             if seq is NotImplemented or not isinstance(st.target, (ast.Name, ast.Tuple)):
-                raise AnalysisError('%s:%d: registration loop over a non-literal sequence' % (m.rel, st.lineno))
+                # registrations computed at import time from something that is not a literal (vars(), dir(), a table
+                # built elsewhere): recorded, and every table the loop can write is reported as not provably closed
+                classes = []
+                for c in A.calls_in(st.body):
+                    if isinstance(c.func, ast.Attribute) and c.func.attr in writers_by_name:
+                        t = repo.resolve_expr(m, c.func.value)
+                        classes.append((t.obj if t is not None and t.kind == 'class' else None, c.func.attr))
+                heap.dynamic.append((m, st, classes))
+                return
             for item in seq:
                 e = dict(env)
                 if isinstance(st.target, ast.Name):
